@@ -9,12 +9,14 @@ package v2
 // Verified with safety obligations: the batch may contain null entries (the generated validation skips them - a genuine
 // panic was repaired, see known_findings.txt); a null entry yields an alert without labels, which validation rejects.
 //@ func OpenAPIAlertsToAlerts
-//@   props C13
+//@   props C13 C14 C05
 //@   requires tracer != nil
 //@   after call Tracer).Start assume res0 != nil && res1 != nil
 //@   ensures [one-alert-per-entry] fresh(result) && len(result) == len(apiAlerts) && (forall i int :: 0 <= i && i < len(result) ==> result[i] != nil && fresh(result[i]) && !result[i].Timeout)
 //@   ensures [distinct] forall i int, j int :: 0 <= i && i < j && j < len(result) ==> result[i] != result[j]
 //@   ensures [null-entry-becomes-an-invalid-alert] forall i int :: 0 <= i && i < len(apiAlerts) && apiAlerts[i] == nil ==> result[i].Labels == nil && result[i].StartsAt == 0
+//@   ensures [times-exactly-as-posted] forall i int :: 0 <= i && i < len(apiAlerts) && apiAlerts[i] != nil ==> result[i].StartsAt == apiAlerts[i].StartsAt && result[i].EndsAt == apiAlerts[i].EndsAt
+//@   loop 1 invariant forall i int :: 0 <= i && i <= rangeindex && apiAlerts[i] != nil ==> alerts[i].StartsAt == apiAlerts[i].StartsAt && alerts[i].EndsAt == apiAlerts[i].EndsAt
 //@   loop 1 invariant rangeindex < len(apiAlerts) && fresh(alerts) && len(alerts) == rangeindex + 1
 //@   loop 1 invariant forall i int :: 0 <= i && i < len(alerts) ==> alerts[i] != nil && fresh(alerts[i]) && !alerts[i].Timeout
 //@   loop 1 invariant forall i int, j int :: 0 <= i && i < j && j < len(alerts) ==> alerts[i] != alerts[j]
@@ -27,7 +29,7 @@ package v2
 // every non-null matcher (assumed), but skips null matchers: a null entry is answered with an error (a genuine panic
 // was repaired, see known_findings.txt), never dereferenced.
 //@ func PostableSilenceToProto
-//@   props C12
+//@   props C12 C16 C02
 //@   requires s != nil
 //@   assumes s.StartsAt != nil && s.EndsAt != nil && s.Comment != nil && s.CreatedBy != nil
 //@   assumes forall i int :: 0 <= i && i < len(s.Matchers) && s.Matchers[i] != nil ==> s.Matchers[i].Name != nil && s.Matchers[i].Value != nil
@@ -35,6 +37,12 @@ package v2
 //@   ensures [otherwise-converted] (forall i int :: 0 <= i && i < len(s.Matchers) ==> s.Matchers[i] != nil) ==> result1 == nil && result0 != nil && fresh(result0)
 //@             && len(result0.MatcherSets) == 1 && result0.MatcherSets[0] != nil && len(result0.MatcherSets[0].Matchers) == len(s.Matchers) && result0.Id == s.ID
 //@   loop 1 invariant rangeindex < len(s.Matchers) && fresh(matcherSet) && fresh(sil) && (matcherSet.Matchers == nil || fresh(matcherSet.Matchers)) && len(matcherSet.Matchers) == rangeindex + 1 && (forall k int :: 0 <= k && k <= rangeindex ==> s.Matchers[k] != nil) && sil.Id == s.ID && len(sil.MatcherSets) == 0
+//@   ensures [matchers-stored-verbatim-in-order] result1 == nil ==> (forall i int :: 0 <= i && i < len(s.Matchers) ==> result0.MatcherSets[0].Matchers[i] != nil
+//@             && result0.MatcherSets[0].Matchers[i].Name == deref(s.Matchers[i].Name) && result0.MatcherSets[0].Matchers[i].Pattern == deref(s.Matchers[i].Value))
+//@   ensures [comment-and-author-verbatim] result1 == nil ==> result0.Comment == deref(s.Comment) && result0.CreatedBy == deref(s.CreatedBy)
+//@   loop 1 invariant forall k int :: 0 <= k && k < len(matcherSet.Matchers) ==> matcherSet.Matchers[k] != nil && fresh(matcherSet.Matchers[k])
+//@             && matcherSet.Matchers[k].Name == deref(s.Matchers[k].Name) && matcherSet.Matchers[k].Pattern == deref(s.Matchers[k].Value)
+//@   loop 1 invariant sil.Comment == deref(s.Comment) && sil.CreatedBy == deref(s.CreatedBy)
 //@   noeffect timestamppb.New
 //@   assigns nothing
 
